@@ -3,7 +3,7 @@ from vlib import *
 import defs as D, random, re, tempfile, shutil
 from checks.c16 import pe
 
-TYPED = ["", "-", "--", "--a", "$(touch CANARY1)", "`touch CANARY2`", "a'b", "a\"b", "a b", "a;touch CANARY3", "a|b", "x\ny", "\\", "*",
+TYPED = ["", "-", "--", "--a", "--output-dir", "$(touch CANARY1)", "`touch CANARY2`", "a'b", "a\"b", "a b", "a;touch CANARY3", "a|b", "x\ny", "\\", "*",
          "ñ", "--out=$(touch CANARY4)", "'", "a&b", "');touch CANARY5;('", "$HOME", "--name=cv", "a\\'b", "~", "#x", "{a,b}"]
 HELPS = ["plain help", "it's quoted", "$(touch CANARY6)", "semi; colon", "back`tick`", "dq \" here", "paren ) ( here", "two\nlines",
          "long " + "word " * 30]
@@ -23,6 +23,9 @@ def shell_family(seed, n):
         if rnd.random() < 0.5:
             nm["cgroup"] = pe(rnd.choice(["grp", "grp's", "g $(touch CANARY9)"]))
         named += [out, nm]
+        if i % 2 == 0:
+            # long names, two of them sharing their first 24 characters
+            named += [D.sw("l0", "--output-directory-for-reports-and-logs", help=h()), D.sw("l1", "--output-directory-for-reports-only", help=h())]
         p = D.pos("p0", rnd.choice(["opt", "many"]))
         p["help"] = h()
         if rnd.random() < 0.7:
